@@ -459,7 +459,10 @@ def run_xmlns(sv, res):
 
 
 AMP_PAIRS = [(':scope', '&'), (':scope > x|e', '& > x|e'), (':scope > *|*', '& > *|*'), (':is(:scope)', ':is(&)'), ('x|e:scope', 'x|e&'), ('*|*:scope *|f', '*|*& *|f'),
-             (':not(:scope)', ':not(&)'), (':scope ~ *|e', '& ~ *|e'), (':has(> :scope)', ':has(> &)'), ('*|*:not(:scope) > x|f', '*|*:not(&) > x|f')]
+             (':not(:scope)', ':not(&)'), (':scope ~ *|e', '& ~ *|e'), (':has(> :scope)', ':has(> &)'), ('*|*:not(:scope) > x|f', '*|*:not(&) > x|f'),
+             # '&' written AFTER the other parts of a compound, in particular after pseudo-classes that are recorded as flags of the compound
+             (':empty:scope', ':empty&'), (':scope:empty', '&:empty'), (':root:scope', ':root&'), ('*|e:empty:scope', '*|e:empty&'), (':dir(ltr):scope', ':dir(ltr)&'),
+             (':defined:scope', ':defined&'), (':not(:empty):scope', ':not(:empty)&'), ('[id]:scope:not(:root)', '[id]&:not(:root)'), (':empty:root:scope', ':empty:root&')]
 AMP_MAPS = [None, {'x': 'urn:a'}, {'': 'urn:a', 'x': 'urn:a'}, {'': 'urn:zz', 'x': 'urn:a'}, {'': 'urn:b', 'x': 'urn:b'}]
 
 
